@@ -17,6 +17,12 @@ CLAIMS = {
          "sequential semantics only: 'within one cycle', interleavings of StartHunt/StopHunt with the running goroutine and real time are schedule properties no contract here can state (mutexes are no-ops, go statements are not executed); probe-reject conditions are covered only as 'a reply to the requester'"),
  "C15": ("Checksum(b) == byte-swapped RFC 1071 checksum for every b up to 65535 bytes: loop invariant against a recursive little-endian word sum, byte-order independence by an inductive ghost-loop lemma over one's-complement addition lemmas (each discharged by bit-blasting)",
          "inputs longer than 65535 bytes excluded (uint32 accumulator); recursive spec functions assumed terminating; header/ICMP sums-to-zero lemmas: see evidence"),
+ "C16": ("every view accessor of the 23 view types and of Frame returns a sub-slice of the caller's buffer (same region, offsets inside the view: write-through aliasing is the memory model's meaning of 'same region and offset'); Parse's views of the packet are the buffer itself at the decoded offsets; allocation clause over a ghost allocation counter: for an untagged IPv4/IPv6/ARP frame whose source is indexed in the host table, bound to the same MAC and online, Parse returns with the counter unchanged (fast path of findOrCreateHostWithLock, IP4.IsValid, echoNotify proved allocation-free on their success paths)",
+         "the allocation counter counts go/ssa allocation sites of repository code (make, new, escaping composites, append growth, map inserts, string conversions, fmt.Errorf/errors.New); go/ssa's escape flag is an over-approximation of the compiler's, inlined net/netip helpers are taken to be allocation-free; the slow path of findOrCreateHostWithLock is a TRUSTED case (not taken in steady state); known finding: Ether.Payload of a header-only frame extends beyond the frame"),
+ "C17": ("NameEntry.Merge: every attribute becomes the incoming value when one is given and is kept otherwise (never erased), modified is reported exactly when one of the four attributes changed, Merge is idempotent (lemma over the contract); DNS decoding: decodeName / DecodeQuestion / decodeRRs / DecodeAnswers are total, bounded in recursion depth (255 pointer hops), reject names longer than 255 bytes, reserved label types, pointers and fixed fields outside the message, and return offsets inside the message; question type/class equal the big-endian fields",
+         "NOT decided: equality of the decoded names and A/AAAA/CNAME/PTR records with an independent DNS implementation (no reference decoder for compressed names was written), and the dns_naming handler's stores (mDNS/NBNS); the Merge clauses are complete"),
+ "C19": ("echoNotify(id) marks and removes exactly the waiter registered under id, leaves every other waiter untouched and is a no-op for an identifier nobody waits for; ping/Ping6 draw a fresh identifier (the counter advances), send exactly one echo request carrying it, and leave no waiter entry behind on any return path (including send errors: defect repaired); Parse hands an identifier to echoNotify only for a valid echo reply (Parse's contract applies echoNotify's)",
+         "the hand-over between the packet goroutine and the waiting goroutine (nil iff a matching reply arrives before the timeout, concurrent pings) is a schedule/real-time property: with sequential semantics nothing can answer, so a completed wait returns ErrTimeout; wrap-around of the 16-bit identifier onto a still pending waiter is excluded by precondition"),
  "C20": ("fastlog appenders: in-bounds under their stated room precondition, exact index arithmetic, rendered bytes for MAC / hex / bool / string fields equal the reference renderer; ByteArray, StringArray, IPArray proved panic-free and in-buffer for ANY value length; appendIP6 in-bounds for all addresses",
          "decimal digit *content* of printInt and the RFC 5952 text of appendIP6 are not decided (length and position only); Int/IP render through strconv/netip themselves; appenders that clobber the whole buffer in their modifies clause are listed in evidence"),
 }
